@@ -14,6 +14,9 @@
     `ringMeets`.)  GEOS itself is not modelled: that `intersects` / `dwithin` compute these predicates is compared by
     the correspondence on exact-grid inputs.
     Changing a lanelet that is already in a network is NOT modelled (property C11).
+    Part II c: several live networks derived from one another (source and copies all used further, `CR.Index.wrun`):
+    an operation on one leaves the others as they were, and every one of them is synchronised after any admissible history
+    (`C06_world_on_frame`, `C06_world_fork_frame`, `C06_world_sync`, `C06_world_lookup`).
   Part III (obstacles): `get_obstacles`, `map_obstacles_to_lanelets`, `filter_obstacles_in_network` are that same scan.
 
   Partial clauses (full statements kept as `def …_full : Prop`):
